@@ -240,6 +240,47 @@ def variant_producers(doc):
                     out.append({"id": "variant:%s::%s.%d" % (name, vv["name"], j), "lets": lets, "expr": expr, "out": "field", "outfull": "field", "consumes_seed": True})
     return out
 
+def infer_ty(t):
+    """a type expression a client can write without naming private types: placeholders where needed"""
+    if t is None:
+        return "()"
+    if "tuple" in t:
+        return "(" + ", ".join("_" for _ in t["tuple"]) + ")"
+    if "resolved_path" in t:
+        rp = t["resolved_path"]
+        return (rp.get("path") or rp.get("name") or "_").split("::")[-1]
+    return "_"
+
+def from_producers(doc):
+    """conversions: every `impl From<S> for T` whose source S is one of the transaction-bound
+    types is a producer `<T>::from(s)` (and, for a tuple target, one producer per component)"""
+    idx = doc["index"]
+    out = []
+    for k, v in idx.items():
+        inner = v["inner"]
+        if "impl" not in inner:
+            continue
+        im = inner["impl"]
+        if im.get("is_synthetic") or im.get("blanket_impl") or not im.get("trait"):
+            continue
+        if im["trait"]["path"].split("::")[-1] != "From":
+            continue
+        targs = ((im["trait"].get("args") or {}).get("angle_bracketed") or {}).get("args", [])
+        if not targs or "type" not in targs[0]:
+            continue
+        src = tyname(targs[0]["type"])
+        if src not in SEEDS or src in ("DB", "Tx"):
+            continue
+        lets, sexpr = SEEDS[src]
+        tgt = im["for"]
+        ident = "From<%s>for %s" % (src, tyfull(tgt))
+        expr = "<%s>::from(%s)" % (infer_ty(tgt), sexpr)
+        out.append({"id": ident, "lets": lets, "expr": expr, "out": tyname(tgt), "outfull": tyfull(tgt), "consumes_seed": True})
+        if "tuple" in tgt:
+            for j, comp in enumerate(tgt["tuple"]):
+                out.append({"id": "%s.%d" % (ident, j), "lets": lets, "expr": "%s.%d" % (expr, j), "out": tyname(comp), "outfull": tyfull(comp), "consumes_seed": True})
+    return out
+
 def producers(methods):
     prods = []
     gaps = []
@@ -361,6 +402,8 @@ def route_fns(i, p):
     fns["f_%d" % i] = "pub fn f_%d(path: &str) {\n    let escaped;\n    {\n        let db = DB::open(path).unwrap();\n        let tx = Box::leak(Box::new(db.tx(true).unwrap()));\n        %s\n        let r = %s;\n        escaped = r;\n    }\n    sink(&escaped);\n}\n" % (i, lets, e)
     # ordinary usage: the value outlives the intermediate handles it was obtained through, not the transaction
     fns["h_%d" % i] = "pub fn h_%d(db: &DB) {\n        let tx = db.tx(true).unwrap();\n        let r = {\n        %s\n        %s\n        };\n        sink(&r);\n}\n" % (i, lets, e)
+    # ordinary usage: a named handle / iterator / value that is simply still in scope (not used any more) when the transaction is committed
+    fns["k_%d" % i] = "pub fn k_%d(db: &DB) {\n        let tx = db.tx(true).unwrap();\n        %s\n        let mut r = %s;\n        sink(&r);\n        tx.commit().unwrap();\n}\n" % (i, lets, e)
     fns["t_%d" % i] = "pub fn t_%d(db: &DB) {\n        let tx = db.tx(true).unwrap();\n        %s\n        let r = %s;\n        std::thread::scope(|s| { s.spawn(move || sink(&r)); });\n}\n" % (i, lets, e)
     fns["u_%d" % i] = "pub fn u_%d(db: &'static DB) {\n        let tx = db.tx(true).unwrap();\n        %s\n        let r = %s;\n        std::thread::spawn(move || sink(&r));\n}\n" % (i, lets, e)
     fns["v_%d" % i] = "pub fn v_%d(db: &DB) {\n        let tx = db.tx(true).unwrap();\n        %s\n        let r = %s;\n        std::thread::scope(|s| { s.spawn(|| sink(&r)); });\n}\n" % (i, lets, e)
@@ -405,6 +448,7 @@ CONTROLS = [
     ("ctl_range_computed_bounds", "let tx = db.tx(false).unwrap(); let b = tx.get_bucket(\"b\").unwrap(); let first = { let lo = format!(\"k{}\", 0); let hi = format!(\"k{}\", 9); b.range(lo.as_bytes()..hi.as_bytes()).next() }; sink(&first); let inc = { let hi = String::from(\"k5\"); b.range(..=hi.as_bytes()).to_kv_pairs().last() }; sink(&inc);"),
     ("ctl_seek_computed_key", "let tx = db.tx(false).unwrap(); let b = tx.get_bucket(\"b\").unwrap(); let mut c = b.cursor(); { let k = format!(\"k{}\", 3); c.seek(k.as_str()); } let d = c.next(); sink(&d);"),
     ("ctl_get_computed_key", "let tx = db.tx(false).unwrap(); let b = tx.get_bucket(\"b\").unwrap(); let v = { let k = format!(\"k{}\", 1); b.get(k.as_str()) }; sink(&v); let kv = { let k = format!(\"k{}\", 2).into_bytes(); b.get_kv(k.as_slice()) }; sink(&kv);"),
+    ("ctl_named_iterators_at_commit", "let tx = db.tx(true).unwrap(); let b = tx.get_or_create_bucket(\"b\").unwrap(); let mut c = b.cursor(); c.seek(\"k1\"); let first = c.next(); sink(&first); let mut r = b.range(..); let _ = r.next(); let mut subs = b.cursor().to_buckets(); let _ = subs.next(); let mut pairs = b.range(..).to_kv_pairs(); let _ = pairs.next(); b.put(\"new\", \"v\").unwrap(); tx.commit().unwrap();"),
     ("ctl_iterate", "let tx = db.tx(false).unwrap(); let b = tx.get_bucket(\"b\").unwrap(); for d in b.cursor() { match d { Data::Bucket(n) => sink(&n.name()), Data::KeyValue(kv) => sink(&kv.kv()) } } for kv in b.range(..).to_kv_pairs() { sink(&kv); }"),
 ]
 
@@ -511,6 +555,7 @@ def main():
     methods = api_methods(doc)
     prods, gaps = producers(methods)
     prods += variant_producers(doc)
+    prods += from_producers(doc)
     rlib, deps = find_rlib()
 
     fns = {}
@@ -525,7 +570,7 @@ def main():
         fns[n] = "pub fn %s(db: &DB) {\n    %s\n}\n" % (n, body)
 
     # thread routes produce E0277 (a type error): keep them in their own unit
-    life = {n: s for n, s in fns.items() if n[0] in "abcfgeh" or n.startswith("ctl_")}
+    life = {n: s for n, s in fns.items() if n[0] in "abcfgehk" or n.startswith("ctl_")}
     thread = {n: s for n, s in fns.items() if n[0] in "tuvm"}
     res = {}
     res.update(compile_unit(life, rlib, deps, "life"))
@@ -542,7 +587,7 @@ def main():
                 violations.append(("control_rejected", "positive control %s must compile but rustc says %s %s" % (n, codes, msgs[:1]), {"program": fns[n]}))
             continue
         route = n[0]
-        if route == "h":
+        if route in "hk":
             continue  # judged against the baseline below
         if status == "borrow":
             rejected += 1
@@ -583,8 +628,8 @@ def main():
     base_path = os.path.join(ROOT, "golden", "typex_ordinary_baseline.json")
     h_now = {}
     for n, (status, codes, msgs) in res.items():
-        if n[0] == "h" and n in owner:
-            h_now[owner[n][1]["id"]] = "compiled" if status == "compiled" else ("rejected" if status == "borrow" else "other:" + ",".join(codes))
+        if n[0] in "hk" and n in owner:
+            h_now[("" if n[0] == "h" else "k|") + owner[n][1]["id"]] = "compiled" if status == "compiled" else ("rejected" if status == "borrow" else "other:" + ",".join(codes))
     if "--write-baseline" in sys.argv:
         json.dump(h_now, open(base_path, "w"), indent=1, sort_keys=True)
         print("baseline written: %d producers, %d compile" % (len(h_now), sum(1 for v in h_now.values() if v == "compiled")))
@@ -599,8 +644,10 @@ def main():
             continue
         h_checked += 1
         if h_now[pid] != "compiled":
-            n = next(k for k in owner if k[0] == "h" and owner[k][1]["id"] == pid)
-            violations.append(("ordinary_usage_rejected:" + pid, "a value obtained through temporary handles and used while its transaction is still open (`let r = { ..handles..; %s }; use(&r)`) compiled with the pinned types and is now rejected (%s)" % (owner[n][1]["expr"], h_now[pid]), {"program": fns[n], "producer": pid, "route": "h"}))
+            rt, rid = ("k", pid[2:]) if pid.startswith("k|") else ("h", pid)
+            n = next(k for k in owner if k[0] == rt and owner[k][1]["id"] == rid)
+            shape = "`let r = { ..handles..; %s }; use(&r)`" if rt == "h" else "`let r = %s; use(&r); tx.commit()` with the handles and r still in scope, unused, at the commit"
+            violations.append(("ordinary_usage_rejected:" + pid, "a value obtained and used while its transaction is still open (" + (shape % owner[n][1]["expr"]) + ") compiled with the pinned types and is now rejected (%s)" % h_now[pid], {"program": fns[n], "producer": pid, "route": rt}))
     # the verification harness is itself an ordinary client of the public API
     if "--harness-build-failed" in sys.argv:
         logp = sys.argv[sys.argv.index("--harness-build-failed") + 1]
@@ -721,7 +768,7 @@ def main():
             "distinct_nontrivial": rejected + ran,
             "rule": "one evaluation = one generated client program = (producer: a call chain from a transaction to a public method or trait method found in the rustdoc JSON of the current tree, arguments synthesised from the bounds) x (escape route); distinct by construction; non-trivial = rejected by rustc with a borrow/lifetime/Send error, or compiled and executed in a probe process (transaction ended, file rewritten and remapped with old maps made inaccessible, value rendered before and after)",
             "samples": samples,
-            "producers": len(prods), "routes_per_producer": 7, "argument_and_handle_routes": len(ARG_ROUTES), "positive_controls": len(CONTROLS),
+            "producers": len(prods), "routes_per_producer": 9, "argument_and_handle_routes": len(ARG_ROUTES), "positive_controls": len(CONTROLS),
             "rejected_by_rustc": rejected, "compiled": len(compiled), "compiled_and_run": ran, "run_plainly_owned": trivial, "run_opaque_type": opaque,
             "generator_gaps": len(gen_gaps), "generator_gaps_first": gen_gaps[:25],
             "runs_first": run_rows,
